@@ -337,8 +337,11 @@ Definition py_le (a b : val) : option bool :=
 Definition py_in (a c : val) : option bool :=
   match a, c with
   | VObj _, _ => None
-  | _, VTuple l | _, VList l | _, VSet l =>
+  | _, VTuple l | _, VList l =>
       if existsb (fun v => match v with VObj _ => true | _ => false end) l then None
+      else Some (existsb (key_eqb a) l)
+  | _, VSet l =>          (* membership in a set hashes the candidate *)
+      if existsb (fun v => match v with VObj _ => true | _ => false end) l || negb (hashable a) then None
       else Some (existsb (key_eqb a) l)
   | _, VDict d => if hashable a then Some (existsb (key_eqb a) (map fst d)) else None
   | _, _ => None
